@@ -119,79 +119,102 @@ Lemma mp_truncated_map_throws : throws mp_load_map (mp_init [0x81%N]) EParse.
 Proof.
   unfold mp_load_map. apply t_scope. eapply t_seq2.
   - apply c_act. vm_compute. reflexivity.
-  - apply t_scope. eapply t_seq2.
+  - apply t_seq1. apply t_scope. eapply t_seq2.
     + apply c_act. vm_compute. reflexivity.
     + apply t_dyn. cbn. apply t_seq1. apply t_seq1. eapply t_act. vm_compute. reflexivity.
 Qed.
 
-(* F18: the second row has fewer fields than the first.  No action throws at all: the width check lives in
-   NextLine, which only the destructor calls — on the normal path *)
-Lemma csv_short_row_terminates : csv_run [2; 1] = Terminate.
+(* F18 as it was before /repo commit 0a28cd4: the second row has fewer fields than the first.  No action throws: the
+   width check lives in NextLine, which only the (then unguarded) destructor calls — on the normal path *)
+Lemma csv_unguarded_short_row_terminates : exec (csv_save_unguarded [2; 1]) csv_init = Terminate.
 Proof. vm_compute. reflexivity. Qed.
 
-(* the CSV width error can never reach the caller as an exception, for any sequence of rows *)
+(* ---- the repaired writer: the destructor defers the error, Finalize rethrows the first one *)
 Lemma exec_iterate_write : forall n s, exists s',
   exec (iterate n (Act write_value)) s = Ok s' /\ cw_row s' = cw_row s /\ cw_prev s' = cw_prev s /\
-  cw_values s' = n + cw_values s /\ cw_lines s' = cw_lines s.
+  cw_values s' = n + cw_values s /\ cw_lines s' = cw_lines s /\ cw_deferred s' = cw_deferred s.
 Proof.
   induction n; intro s; cbn [iterate exec].
   - exists s. repeat split.
-  - unfold write_value at 1. destruct (IHn {| cw_row := cw_row s; cw_values := S (cw_values s); cw_prev := cw_prev s; cw_lines := cw_lines s |})
-      as [s' [H [H1 [H2 [H3 H4]]]]].
+  - unfold write_value at 1.
+    destruct (IHn {| cw_row := cw_row s; cw_values := S (cw_values s); cw_prev := cw_prev s; cw_lines := cw_lines s;
+                     cw_deferred := cw_deferred s |}) as [s' [H [H1 [H2 [H3 [H4 H5]]]]]].
     exists s'. cbn in *. repeat split; try assumption. lia.
 Qed.
 
-Lemma csv_rows_no_err : forall widths s e s', exec (csv_rows widths) s <> Err e s'.
+Lemma dtor_write_object_scope_total : total dtor_write_object_scope.
 Proof.
-  induction widths as [|w rest IH]; intros s e s'; cbn [csv_rows exec].
-  - discriminate.
-  - unfold csv_row. cbn [exec].
-    destruct (exec_iterate_write w s) as [s1 [-> _]]. cbn [close].
-    destruct (next_line s1) as [s2|e2 s2|]; [apply IH|discriminate|discriminate].
+  intro s. unfold dtor_write_object_scope, next_line.
+  destruct (Nat.eqb (cw_row s) 0); [eauto|]. destruct (Nat.eqb (cw_values s) (cw_prev s)); eauto.
 Qed.
 
-Theorem csv_width_error_never_surfaces : forall widths e s, csv_run widths <> Err e s.
+(* a deferred error stays (first error wins) and the rows after it never stop the save *)
+Lemma csv_rows_keep_deferred : forall rest s e, cw_deferred s = Some e ->
+  exists s', exec (csv_rows rest) s = Ok s' /\ cw_deferred s' = Some e.
 Proof.
-  intros widths e s. unfold csv_run, csv_save. cbn [exec].
-  destruct (exec (csv_rows widths) csv_init) as [s1|e1 s1|] eqn:E; cbn [close]; try discriminate.
-  exfalso. eapply csv_rows_no_err. exact E.
+  induction rest as [|x rest IH]; intros s e Hd; cbn [csv_rows exec].
+  - eauto.
+  - unfold csv_row. cbn [exec]. destruct (exec_iterate_write x s) as [s1 [-> [_ [_ [_ [_ D1]]]]]]. cbn [close].
+    rewrite Hd in D1.
+    unfold dtor_write_object_scope, next_line.
+    destruct (Nat.eqb (cw_row s1) 0); [apply IH; cbn; exact D1|].
+    destruct (Nat.eqb (cw_values s1) (cw_prev s1)); apply IH; cbn; [exact D1|unfold defer; cbn; rewrite D1; reflexivity].
 Qed.
 
-(* exact characterisation: the save terminates the process iff some row is wider or narrower than the first *)
 Definition uniform (widths : list nat) : bool :=
   match widths with [] => true | w :: rest => forallb (Nat.eqb w) rest end.
 
-Lemma csv_rows_after_first : forall rest s, cw_row s <> 0 -> cw_values s = 0 ->
-  (forallb (Nat.eqb (cw_prev s)) rest = true -> exists s', exec (csv_rows rest) s = Ok s') /\
-  (forallb (Nat.eqb (cw_prev s)) rest = false -> exec (csv_rows rest) s = Terminate).
+Lemma csv_rows_after_first : forall rest s, cw_row s <> 0 -> cw_values s = 0 -> cw_deferred s = None ->
+  (forallb (Nat.eqb (cw_prev s)) rest = true -> exists s', exec (csv_rows rest) s = Ok s' /\ cw_deferred s' = None) /\
+  (forallb (Nat.eqb (cw_prev s)) rest = false ->
+     exists s', exec (csv_rows rest) s = Ok s' /\ cw_deferred s' = Some EOutOfRange).
 Proof.
-  induction rest as [|x rest IH]; intros s Hr Hv; cbn [csv_rows exec forallb].
+  induction rest as [|x rest IH]; intros s Hr Hv Hd; cbn [csv_rows exec forallb].
   - split; [eauto|discriminate].
-  - unfold csv_row. cbn [exec]. destruct (exec_iterate_write x s) as [s1 [-> [R1 [P1 [V1 _]]]]]. cbn [close].
-    unfold next_line. destruct (Nat.eqb (cw_row s1) 0) eqn:E0.
+  - unfold csv_row. cbn [exec]. destruct (exec_iterate_write x s) as [s1 [-> [R1 [P1 [V1 [_ D1]]]]]]. cbn [close].
+    unfold dtor_write_object_scope, next_line. destruct (Nat.eqb (cw_row s1) 0) eqn:E0.
     { apply Nat.eqb_eq in E0. congruence. }
     rewrite V1, P1, Hv, Nat.add_0_r, (Nat.eqb_sym (cw_prev s) x).
     destruct (Nat.eqb x (cw_prev s)) eqn:Exw; cbn [andb].
-    + set (s2 := {| cw_row := S (cw_row s1); cw_values := 0; cw_prev := cw_prev s; cw_lines := S (cw_lines s1) |}).
+    + set (s2 := {| cw_row := S (cw_row s1); cw_values := 0; cw_prev := cw_prev s; cw_lines := S (cw_lines s1);
+                    cw_deferred := cw_deferred s1 |}).
       assert (Hp2 : cw_prev s2 = cw_prev s) by reflexivity. rewrite <- Hp2.
-      apply IH; cbn; [discriminate|reflexivity].
-    + split; [discriminate|reflexivity].
+      apply IH; cbn; [discriminate|reflexivity|congruence].
+    + split; [discriminate|]. intros _.
+      apply csv_rows_keep_deferred. unfold defer. cbn. rewrite D1, Hd. reflexivity.
 Qed.
 
-Theorem csv_terminates_iff_ragged : forall widths,
+(* full strength for the CSV save, every list of rows: the width error surfaces as OutOfRange, exactly when some row
+   differs in width from the first; nothing else can happen *)
+Theorem csv_width_error_surfaces : forall widths,
   (uniform widths = true -> exists s, csv_run widths = Ok s) /\
-  (uniform widths = false -> csv_run widths = Terminate).
+  (uniform widths = false -> exists s, csv_run widths = Err EOutOfRange s).
 Proof.
   intros [|w rest]; unfold csv_run, csv_save, uniform; cbn [exec csv_rows].
   - split; [intros _; eexists; reflexivity|discriminate].
-  - unfold csv_row. cbn [exec]. destruct (exec_iterate_write w csv_init) as [s1 [-> [R1 [P1 [V1 L1]]]]]. cbn [close].
-    unfold next_line. rewrite R1. cbn [csv_init cw_row Nat.eqb].
-    set (s2 := {| cw_row := 1; cw_values := 0; cw_prev := cw_values s1; cw_lines := S (cw_lines s1) |}).
+  - unfold csv_row. cbn [exec]. destruct (exec_iterate_write w csv_init) as [s1 [-> [R1 [P1 [V1 [L1 D1]]]]]]. cbn [close].
+    unfold dtor_write_object_scope, next_line. rewrite R1. cbn [csv_init cw_row Nat.eqb].
+    set (s2 := {| cw_row := 1; cw_values := 0; cw_prev := cw_values s1; cw_lines := S (cw_lines s1);
+                  cw_deferred := cw_deferred s1 |}).
     assert (Hw : cw_prev s2 = w) by (cbn; rewrite V1; cbn; lia).
-    destruct (csv_rows_after_first rest s2) as [Hok Hbad]; [cbn; discriminate|reflexivity|].
+    destruct (csv_rows_after_first rest s2) as [Hok Hbad]; [cbn; discriminate|reflexivity|cbn; rewrite D1; reflexivity|].
     rewrite Hw in Hok, Hbad. split; intro H.
-    + destruct (Hok H) as [s' ->]. cbn [close]. eauto.
-    + rewrite (Hbad H). reflexivity.
+    + destruct (Hok H) as [s' [-> Hn]]. unfold csv_finalize. rewrite Hn. cbn [close]. eauto.
+    + destruct (Hbad H) as [s' [-> Hs]]. unfold csv_finalize. rewrite Hs. cbn [close]. eauto.
+Qed.
+
+Lemma csv_rows_total : forall rest s, exists s', exec (csv_rows rest) s = Ok s'.
+Proof.
+  induction rest as [|x rest IH]; intro s; cbn [csv_rows exec]; [eauto|].
+  unfold csv_row. cbn [exec]. destruct (exec_iterate_write x s) as [s1 [-> _]]. cbn [close].
+  destruct (dtor_write_object_scope_total s1) as [s2 ->]. apply IH.
+Qed.
+
+Theorem csv_never_terminates : forall widths, csv_run widths <> Terminate.
+Proof.
+  intro widths. unfold csv_run, csv_save. cbn [exec].
+  destruct (csv_rows_total widths csv_init) as [s1 ->]. unfold csv_finalize.
+  destruct (cw_deferred s1); cbn [close]; discriminate.
 Qed.
 
 (* ------------------------------------------------------------------------------------------------ *)
@@ -225,9 +248,12 @@ Proof.
   destruct (skip_pairs (mp_size s1 - mp_idx s1) s1); [eauto|eauto|congruence].
 Qed.
 
+Lemma mp_finalize_no_term : forall s, mp_finalize s <> Terminate.
+Proof. intro s. unfold mp_finalize. destruct (mp_close_failed s); discriminate. Qed.
+
 Lemma acts_mp : acts_no_terminate mp_load_map.
 Proof.
-  cbn. split; [|split].
+  cbn. split; [|split; [split|]]; [| | |apply mp_finalize_no_term].
   - intro s. unfold open_object_scope, unmodelled. destruct (byte_at s); [|discriminate].
     destruct (is_fixmap n); discriminate.
   - intro s. unfold visit_keys_prologue. pose proof (reset_key_no_term s). destruct (reset_key s); congruence.
